@@ -116,7 +116,10 @@ func (t *tr) node(n gen.Node) string {
 	switch x := n.(type) {
 	case gen.Lit:
 		if len(x.S) == 0 {
-			return t.fail("empty literal")
+			if x.Not {
+				return "[^\\x00-\\x{10FFFF}]"
+			}
+			return "(?:)"
 		}
 		if !x.Not {
 			return litRe(x.S, x.Caseless)
@@ -263,7 +266,9 @@ func (t *tr) node(n gen.Node) string {
 
 func (t *tr) nullable(n gen.Node) bool {
 	switch x := n.(type) {
-	case gen.Lit, gen.Class, gen.In:
+	case gen.Lit:
+		return len(x.S) == 0 && !x.Not
+	case gen.Class, gen.In:
 		return false
 	case gen.Anchor:
 		return true
